@@ -610,13 +610,17 @@ namespace adept {
 	// Check there is space in the operation stack for 1 entry
 	ADEPT_ACTIVE_STACK->check_space(1);
 #endif
-	if (multiplier != 0.0) {
-	  push_rhs(multiplier, rhs_index);
-	}
+	// Test the left-hand side before pushing anything, otherwise
+	// a failed call would leave an orphaned operation on the
+	// stack to be absorbed by the next statement
 	if (!update_lhs(lhs_index)) {
 	  throw wrong_gradient("Wrong gradient: append_derivative_dependence called on a different active number from the most recent add_derivative_dependence call"
 			       ADEPT_EXCEPTION_LOCATION);
 	}
+	if (multiplier != 0.0) {
+	  push_rhs(multiplier, rhs_index);
+	}
+	update_lhs(lhs_index);
 #ifdef ADEPT_RECORDING_PAUSABLE
       }
 #endif
